@@ -330,6 +330,32 @@ Proof. destruct l; [congruence|simpl; lia]. Qed.
 Lemma select_seq_nonempty mask n : length mask = n -> positions mask <> [] -> select mask (seq 0 n) <> [].
 Proof. intros H P. rewrite <- H, select_seq. exact P. Qed.
 
+(* ---- metadata normalisation *)
+Lemma forallb_select {A} (p : A -> bool) mask l : forallb p l = true -> forallb p (select mask l) = true.
+Proof.
+  revert l; induction mask as [|b m IH]; intros [|x t] H; simpl in *; try reflexivity.
+  apply andb_true_iff in H. destruct H as [H1 H2]. destruct b; simpl; [rewrite H1|]; apply IH; exact H2.
+Qed.
+
+Lemma cast_md_idem md : cast_md (cast_md md) = cast_md md.
+Proof. destruct md as [l|]; [|reflexivity]. simpl. destruct (forallb md_empty l) eqn:E; [reflexivity|]. simpl. rewrite E. reflexivity. Qed.
+
+Lemma cast_md_select mask md :
+  cast_md (option_map (select mask) (cast_md md)) = cast_md (option_map (select mask) md).
+Proof.
+  destruct md as [l|]; [|reflexivity]. simpl. destruct (forallb md_empty l) eqn:E; [|reflexivity].
+  simpl. rewrite (forallb_select md_empty mask l E). reflexivity.
+Qed.
+
+Lemma cast_sel a mask t : cast_t (sel a mask (cast_t t)) = cast_t (sel a mask t).
+Proof.
+  destruct a; unfold cast_t; cbn [sel oids sids mat omd smd ttype]; f_equal;
+    first [apply cast_md_select | apply cast_md_idem].
+Qed.
+
+Lemma ids_cast a t : ids a (cast_t t) = ids a t.
+Proof. destruct a; reflexivity. Qed.
+
 Theorem hdf5_subset_eq_proof ids_ a f :
   wf_file f -> NoDup ids_ -> ids_ <> [] -> (forall i, In i ids_ -> In i (file_ids a f)) ->
   from_hdf5_subset ids_ a f = ROk (drop_empty_other a (filter_ids ids_ a (from_hdf5_all f))).
@@ -354,7 +380,8 @@ Proof.
   rewrite (subset_md_select _ mask (length (ax_ids (stored a f))) HmdA HneA Hml
              (select_seq_nonempty mask _ Hml Hkeep)).
   rewrite (subset_md_ones _ (ax_ids (stored (other a) f)) HmdO HneO).
-  unfold filter_ids, from_hdf5_all, views_agree, file_ids in *.
+  unfold filter_ids, flt, from_hdf5_all. rewrite ids_cast, cast_sel. f_equal.
+  unfold views_agree, file_ids in *.
   destruct a; cbn [put_axis sel ids oids sids mat omd smd ttype orient stored other] in *; fold mask.
   - f_equal. unfold sel_rows. rewrite V. reflexivity.
   - f_equal. apply transpose_select.
@@ -423,8 +450,9 @@ Proof.
   f_equal.
   pose proof (sub_dense a f mask WA Hml) as D. cbv zeta in D. unfold file_ids in D at 1. rewrite D. clear D.
   rewrite (select_positions mask (ax_ids (stored a f)) 0%Z Hml).
-  unfold strip_md, filter_ids, from_hdf5_all, views_agree, file_ids in *.
-  destruct a; cbn [put_axis sel ids oids sids mat omd smd ttype orient stored other] in *; fold mask.
+  unfold strip_md, filter_ids, flt, from_hdf5_all. rewrite ids_cast.
+  unfold views_agree, file_ids in *.
+  destruct a; cbn [cast_t put_axis sel ids oids sids mat omd smd ttype orient stored other] in *; fold mask.
   - f_equal. unfold sel_rows. rewrite V. reflexivity.
   - f_equal. apply transpose_select.
 Qed.
@@ -502,12 +530,12 @@ Qed.
 Theorem filter_ids_spec_proof ids_ a t :
   ids a (filter_ids ids_ a t) = filter (fun i => zmem i ids_) (ids a t) /\
   ids (other a) (filter_ids ids_ a t) = ids (other a) t /\
-  mds (other a) (filter_ids ids_ a t) = mds (other a) t /\
-  mds a (filter_ids ids_ a t) = option_map (select (id_mask ids_ (ids a t))) (mds a t) /\
+  mds (other a) (filter_ids ids_ a t) = cast_md (mds (other a) t) /\
+  mds a (filter_ids ids_ a t) = cast_md (option_map (select (id_mask ids_ (ids a t))) (mds a t)) /\
   ttype (filter_ids ids_ a t) = ttype t /\
   mat (filter_ids ids_ a t) = match a with Obs => sel_rows (id_mask ids_ (oids t)) (mat t)
                                           | Samp => sel_cols (id_mask ids_ (sids t)) (mat t) end.
 Proof.
-  unfold filter_ids. destruct a; cbn [sel ids mds other oids sids omd smd ttype mat];
+  unfold filter_ids, flt. destruct a; cbn [cast_t sel ids mds other oids sids omd smd ttype mat];
     repeat split; apply kept_is_filter.
 Qed.
